@@ -2,7 +2,7 @@
 
 from __future__ import annotations
 
-from ..execmodel import FullHooks, make_session, run_execute
+from ..execmodel import FullHooks, define_variables, make_session, run_execute
 from ..interp import explore
 from ..values import Const, Dct, Lst, Obj, Seq, Str, Sym, Tup, tagof
 from .c05 import _prov_nodes
@@ -216,7 +216,7 @@ def rule_executemany_client_side(ctx):
         duck, conn, cur = make_session()
         from ..execmodel import R
         conn.attrs[R().paramstyle] = Const("pyformat")
-        conn.attrs["variables"].attrs[R().variables] = Dct(dict(VARS))
+        define_variables(conn, dict(VARS))
         return I.call(I.getattr(cur, "executemany"), [Sym("COMMAND", typ="str", truthy=True), Tup(sets)], {}, None)
 
     n = 0
